@@ -450,6 +450,7 @@ func (m *monitor) account(res *inResult, inputs []inputSpec) (violated []string)
 	r.Count("requests_answered_through_the_rule_using_the_redis_cache", res.CacheRequests)
 	if res.Deep > 0 {
 		r.Count("deep_documents_handed_over_"+res.Kind, res.Deep)
+		r.Count("deep_token_documents_behind_a_string_with_escapes", res.DeepPre)
 	}
 	if res.Observed {
 		r.Count("consumed_"+res.Kind, 1)
